@@ -568,6 +568,13 @@ func (c *Compiler) compileSwitch(node *ast.Switch) error {
 
 	choices := node.Choices()
 
+	// The switch value stays on the stack while the case blocks run, so a break
+	// or continue inside them has to discard it before leaving (see compileControl).
+	if loop := c.currentLoop(); loop != nil {
+		loop.switchDepth++
+		defer func() { loop.switchDepth-- }()
+	}
+
 	// Emit jump positions for each case
 	var caseJumpPositions []int
 	defaultJumpPos := -1
@@ -1247,6 +1254,10 @@ func (c *Compiler) compileControl(node *ast.Control) error {
 			return c.formatError("invalid break statement outside of a loop", node.Token().StartPosition)
 		}
 		return c.formatError("invalid continue statement outside of a loop", node.Token().StartPosition)
+	}
+	// Discard the value of every switch statement being left
+	for i := 0; i < loop.switchDepth; i++ {
+		c.emit(op.PopTop)
 	}
 	if literal == "break" {
 		// When breaking from a for-range loop, we need to pop the iterator from the stack
